@@ -33,13 +33,13 @@ CLAIM = dict(
     "center_stable (float bridge: quotient error < 1/2 voxel cannot change a centre's index). Remaining public surface (round 2): coordinate_vector_linear, "
     "num_voxels_length (num_voxels(length(n)) = n; num_voxels(L) voxels cover L with < 1 voxel to spare), ceil_bridge, min_max_coordinate + voxel_in_domain (bounding box, "
     "reversed axes), matrix_indexing_false_involutive, check_equal_refl, check_equal_symm_of_symm, npclose_not_symmetric (witness: numpy's isclose is not symmetric), "
-    "coordinatesystem_tracks_state (history independence: after any sequence of conversions, reset_origin(), origin / dimensions assignments on ONE image object the "
-    "coordinate system is that of the current fields), reset_origin_default. Tie: generated axis table + "
+    "inplace_ops_preserve_wellformedness (reset_origin(), origin / dimensions assignments keep the geometry well formed, so all theorems apply to the current fields), reset_origin_default. Tie: generated axis table + "
     "differential correspondence model vs implementation (coordinate, voxel, opposite_corner, voxel_size, default origin, typed points, coordinate_vector, length, num_voxels, "
     "min/max_coordinate, Image.domain, voxels/coordinates, make_* incl. matrix_indexing=False and batch assertions, check_equal_coordinatesystems incl. error classes), exact on dyadic geometries, index-exact with measured float error "
     "(recorded, must stay < 2^-20 voxel) on general geometries with origins up to 1e6 voxel sizes away.",
     note="float arithmetic itself is not modelled: the general stream compares voxel indices at centres and at offsets >= 2^-10 voxel from "
-    "a face and records the measured error of the implementation's quotient; numpy IEEE semantics trusted; Voxel(matrix_indexing=False) not covered.",
+    "a face and records the measured error of the implementation's quotient; numpy IEEE semantics trusted. History independence (no stale cached coordinate system) is OBSERVED (hist correspondence on dyadic geometries + oracle on images with in-place histories), not proved: "
+    "the model's state is just the fields, like the code's property that rebuilds the CoordinateSystem on every access.",
     technique="Lean 4 proof (parametric in the axis map; generated wf obligation by decide) + differential correspondence + oracle search",
 )
 
@@ -282,7 +282,8 @@ def check_case(d, case):
         c = call(cs.coordinate, arg)
         if isinstance(c, Raised):
             return False, f"coordinate raises {c}", list(v)
-        back = call(cs.voxel, c if form != "tuple" else np.asarray(c))
+        # voxel() accepts arrays (incl. the Coordinate returned above) and lists; a tuple is refused (AssertionError), see `form` correspondence
+        back = call(cs.voxel, [float(x) for x in np.asarray(c)] if form == "list" else (np.asarray(c) if form == "tuple" else c))
         if isinstance(back, Raised):
             return False, f"voxel raises {back}", list(v)
         back = np.asarray(back)
@@ -577,7 +578,7 @@ def oracle_geometry(ctx, d, g, payload, halo, stats):
     # batch = map of single, with one point per row: N = 1, N = 2 and a larger batch; arrays and typed arrays
     for nb in (1, 2, min(len(vox), 7)):
         rows = [[int(x) for x in vox[rng.randrange(len(vox))]] for _ in range(nb)]
-        for kind in ("array", "CoordinateArray.to_voxel"):
+        for kind in ("array", "CoordinateArray.to_voxel", "VoxelCenterArray"):
             case = {**base, "clause": "batch", "voxels": rows, "offset": ["1/2"] * dim, "kind": kind}
             ok, obs, req = check_case(d, case)
             ctx.count(("batch", json.dumps(g), nb, kind))
@@ -769,6 +770,31 @@ def correspondence(ctx, d, geoms, halo, stats):
                     else:
                         k = "coord" if isinstance(r, d.Coordinate) else "vox" if isinstance(r, d.Voxel) else "ctr" if isinstance(r, d.VoxelCenter) else "?"
                         impl.append(f"{k} {fmts(np.asarray(r))}")
+            # BasePoint.to(cls, cs): every source kind x every target class (single and array classes), and a foreign class
+            srcs = [("vox", d.make_voxel(np.array(v)), flist(v)), ("ctr", d.make_voxel(np.array(v)).to_voxel_center(), flist(ctr))]
+            if not isinstance(c, Raised):
+                srcs.append(("coord", d.make_coordinate(np.asarray(c)[0]), flist(np.asarray(c)[0])))
+            for kind, obj, enc in srcs:
+                for tk, cls in (("coord", d.Coordinate), ("coord", d.CoordinateArray), ("vox", d.Voxel), ("vox", d.VoxelArray),
+                                ("ctr", d.VoxelCenter), ("ctr", d.VoxelCenterArray), ("other", np.ndarray)):
+                    r = call(obj.to, cls, cs)
+                    lines.append(f"ptto {tk} {tok} {kind} {enc}")
+                    if isinstance(r, Raised):
+                        impl.append(repr(r))
+                    else:
+                        k = "coord" if isinstance(r, d.Coordinate) else "vox" if isinstance(r, d.Voxel) else "ctr" if isinstance(r, d.VoxelCenter) else "?"
+                        impl.append(f"{k} {fmts(np.asarray(r))}")
+            # call forms: coordinate(list | tuple | array), voxel(list | tuple | array)
+            pv_ = [float(x) for x in pts[0]]
+            for f_, arg in (("list", pv_), ("tuple", tuple(pv_)), ("array", np.array(pv_))):
+                r = call(cs.coordinate, arg)
+                lines.append(f"form coordinate {f_} {tok} {flist(pv_)}")
+                impl.append(repr(r) if isinstance(r, Raised) else fmts(np.asarray(r)))
+                if not isinstance(c, Raised):
+                    x_ = [float(x) for x in np.asarray(c)[0]]
+                    r = call(cs.voxel, {"list": x_, "tuple": tuple(x_), "array": np.array(x_)}[f_])
+                    lines.append(f"form voxel {f_} {tok} {flist(x_)}")
+                    impl.append(repr(r) if isinstance(r, Raised) else " ".join(str(int(y)) for y in np.asarray(r)))
             raw = [ctx.rng.randint(-40, 40) / 8 for _ in range(dim)]
             for k, fn in (("vox", d.make_voxel), ("ctr", d.make_voxel_center)):
                 r = call(fn, np.array(raw))
